@@ -89,3 +89,118 @@ func TestDbgEdge(t *testing.T) {
 	}
 	fmt.Fprintf(os.Stderr, "%s: %d of %d worlds contain %s; %d of them have a conversion into pFCT submitted at A-1\n", os.Getenv("P"), in, n, act, hit)
 }
+
+// TestDbgSPRAtV20 counts worlds whose block at the 2.0 activation carries staking records that get paid.
+func TestDbgSPRAtV20(t *testing.T) {
+	c := registry[os.Getenv("P")]
+	n, _ := strconv.Atoi(os.Getenv("N"))
+	in, has, paid := 0, 0, 0
+	for i := 0; i < n; i++ {
+		seed := subSeed(1, os.Getenv("P"), i)
+		sc, err := c.Gen(seed, "quick")
+		if err != nil {
+			t.Fatal(err)
+		}
+		w, _ := buildWorld(sc)
+		a := w.Spec.Config.Act["V20"]
+		if a < w.Spec.First || a > w.Tip() {
+			continue
+		}
+		in++
+		if w.Spec.Blocks[a-w.Spec.First].SPR == nil {
+			continue
+		}
+		has++
+		l := model.New(w, model.Options{})
+		for l.Height < a {
+			l.Step()
+		}
+		ok := false
+		for _, d := range l.Results[a].Deltas {
+			if d.Cause == model.CStaking {
+				ok = true
+				break
+			}
+		}
+		if ok {
+			paid++
+		} else if has < 6 {
+			r := l.Results[a]
+			fmt.Fprintf(os.Stderr, "  seed %d h=%d: rated=%v skipped=%v notes=%v spr=%+v opr=%v\n", seed, a, r.Rated, r.Skipped, r.Notes, *w.Spec.Blocks[a-w.Spec.First].SPR, w.Spec.Blocks[a-w.Spec.First].OPR != nil)
+		}
+	}
+	fmt.Fprintf(os.Stderr, "%s: %d of %d worlds contain V20; %d have staking records in that block; %d pay them\n", os.Getenv("P"), in, n, has, paid)
+}
+
+// TestDbgAligned lists seeds of a property whose world has the named activation on a multiple of 144 inside the chain.
+func TestDbgAligned(t *testing.T) {
+	c := registry[os.Getenv("P")]
+	n, _ := strconv.Atoi(os.Getenv("N"))
+	for i := 0; i < n; i++ {
+		seed := subSeed(1, os.Getenv("P"), i)
+		sc, err := c.Gen(seed, "quick")
+		if err != nil {
+			t.Fatal(err)
+		}
+		a := sc.Spec.Config.Act[os.Getenv("ACT")]
+		if a%144 == 0 && a >= sc.Spec.First && a < sc.Spec.First+uint32(len(sc.Spec.Blocks)) {
+			fmt.Fprintf(os.Stderr, "aligned seed %d: %s=%d first=%d blocks=%d\n", seed, os.Getenv("ACT"), a, sc.Spec.First, len(sc.Spec.Blocks))
+		}
+	}
+}
+
+func TestDbgOne(t *testing.T) {
+	seed, _ := strconv.ParseUint(os.Getenv("S"), 10, 64)
+	c := registry[os.Getenv("P")]
+	sc, err := c.Gen(seed, "quick")
+	if err != nil {
+		t.Fatal(err)
+	}
+	w, _ := buildWorld(sc)
+	l := model.New(w, model.Options{})
+	fmt.Fprintf(os.Stderr, "act %v first %d\n", w.Spec.Config.Act, w.Spec.First)
+	for l.Height < w.Tip() {
+		res := l.Step()
+		if res.Height%144 == 0 {
+			n := 0
+			for _, d := range res.Deltas {
+				if d.Cause == model.CHolder {
+					n++
+				}
+			}
+			fmt.Fprintf(os.Stderr, "   snapshot %d: rated %v holders paid %d notes %v ambiguous %q\n", res.Height, res.Rated, n, res.Notes, res.Ambiguous)
+		}
+	}
+}
+
+func TestDbgPegAtPricing(t *testing.T) {
+	c := registry[os.Getenv("P")]
+	n, _ := strconv.Atoi(os.Getenv("N"))
+	in, rated, nz := 0, 0, 0
+	for i := 0; i < n; i++ {
+		seed := subSeed(1, os.Getenv("P"), i)
+		sc, err := c.Gen(seed, "quick")
+		if err != nil {
+			t.Fatal(err)
+		}
+		w, _ := buildWorld(sc)
+		a := w.Spec.Config.Act["PEGPricing"]
+		if a < w.Spec.First || a > w.Tip() {
+			continue
+		}
+		in++
+		l := model.New(w, model.Options{})
+		for l.Height < a {
+			l.Step()
+		}
+		r := l.Results[a]
+		if r.Rated {
+			rated++
+			if r.Rates[model.PEG] > 0 {
+				nz++
+				fmt.Fprintf(os.Stderr, "  nz seed %d A=%d rate %d\n", seed, a, r.Rates[model.PEG])
+			}
+		}
+	}
+	fmt.Fprintf(os.Stderr, "%s: %d of %d worlds cross PEGPricing; block rated in %d; PEG rate non-zero in %d\n", os.Getenv("P"), in, n, rated, nz)
+}
